@@ -14,13 +14,18 @@ RULE = ("sets of 0..8 RIFF/WAVE files built from the chunk grammar ([extra]* 'fm
         "byte for byte with the Python reference encoder (archive bytes, listing, stream bytes, extracted WAV bytes); refusals: "
         "not RIFF, not WAVE, empty/short/text files, each format field differing in one member, names of 9+ characters, names "
         "equal ignoring case; distinct = distinct protocol lines")
-PROVED = ("see lean/Op2Proofs/Props/C03.lean: the chunk walk finds 'fmt '/'data' behind any list of other chunks; intake of a "
-          "grammar-built WAV returns its format, data position and data length; create succeeds on admissible sets and its "
-          "bytes are the reference encoding (C03_roundtrip); every archive create returns satisfies Clm.Spec.WF (C03_layout); "
-          "refusals (C03_refusals)")
-PARTIAL = ("the name clause is proved for names = strip-extension(filename(path)) as computed by the path model; that the sort "
-           "by file name orders the stripped names is proved under the stated hypothesis on the paths (no '.' in the stem and "
-           "stem characters above '.'), the std::experimental::filesystem path functions themselves are trusted-base models")
+PROVED = ("C03_layout: EVERY archive create returns satisfies Clm.Spec.WF (no hypothesis); C03_reopen: EVERY archive create returns is "
+          "accepted by the reader and member i has the padded name, size = data-chunk length found at intake, stream = exactly those "
+          "source bytes, extraction = canonical header ++ those bytes; C03_roundtrip: for all lists of grammar-built RIFF/WAVE sources "
+          "(any chunks before/between, anything after the data; common 16 format bytes; names <= 8 without NUL, distinct ignoring "
+          "case; fitting 32 bits) creation and reopening succeed, names/sizes/streams are the sources' and every extraction is a "
+          "SelfConsistentWav with the common format; C03_bytes_are_reference: the archive equals Spec.encode of (name, data) in "
+          "sorted order byte for byte; C03_order_independent; C03_names_sorted(_bare): names strictly increasing ignoring case; "
+          "C03_refusals / C03_duplicates_refused(_bare): not RIFF/WAVE, differing formats, name > 8, equal names => err, never a hang; "
+          "intake_desc (walk skips every other chunk, cursor never wraps); 7 bridging lemmas on generated layout/constants")
+PARTIAL = ("the path functions filename()/replace_extension() are a trusted-base model; that sorting by file name sorts the stripped "
+           "names is proved for bare stem[.ext] paths over the property's alphabet (C03_names_sorted_bare) and otherwise under the "
+           "explicit order-compatibility hypothesis; paths with directories are tied by the correspondence run only")
 TRUSTED = ["std::sort returns a sorted permutation", "std::experimental::filesystem::path filename()/replace_extension() (model Op2Model/Path.lean)",
            "FileReader/FileWriter deliver and store bytes as the C12/C14 models say"]
 ASSUMPTIONS = ["paths contain no NUL byte and name existing regular files"]
